@@ -215,6 +215,8 @@ RtBankLabels(src, ver0, got) ==
 IdBankLabels(v1, got) ==
   IF ValEq(got, v1) THEN {}
   ELSE IF v1.ver = 0 THEN {"id-version0"}
-  ELSE IF v1.ver = 1 /\ ValEq(got, ExpBank(v1, 1)) THEN {"id-v1-blank-flag"}
+  \* (the version-1 blank-flag finding concerns instrument entries only: a header field that comes back different is not it)
+  ELSE IF v1.ver = 1 /\ ValEq(got, ExpBank(v1, 1)) /\ got.lfo = v1.lfo /\ got.chip = v1.chip /\ got.vm = v1.vm /\ got.nm = v1.nm /\ got.np = v1.np
+       THEN {"id-v1-blank-flag"}
   ELSE {"identity"}
 =============================================================================
